@@ -59,3 +59,10 @@ REG.ghost('ws_log', List(FR_T))       # frames read from / written to the WebSoc
 REG.ghost('hresults', List(ANY))       # values returned by application handlers, in order
 REG.ghost('route', List(STR))          # where the middleware sent the request: engine / app
 REG.ghost('opened', List(STR))         # files opened for serving
+
+# ASGI middleware (C20)
+REG.ghost('asgi_log', List(STR))      # types of the messages passed to the ASGI send callable
+REG.ghost('asgi_status', List(INT))   # status of every http.response.start message sent
+REG.ghost('asgi_ctype', List(BYTES))  # (name, value) of the single header of every start message, flattened
+REG.ghost('callbacks', INT)           # number of lifespan callbacks invoked
+REG.ghost('cb_raised', INT)           # number of lifespan callbacks that raised
